@@ -207,7 +207,7 @@ pub enum Op {
     Inc(B),
     Len,
     Empty,
-    /// 0 iter, 1 iter_mut, 2 keys, 3 values, 4 into_iter (by value), 5 (&map).into_iter()
+    /// 0 iter, 1 iter_mut, 2 keys, 3 values, 4 into_iter (by value), 5 (&map).into_iter(), 6 (&mut map).into_iter()
     Iter(u8),
     Stats,
     Flush,
@@ -222,6 +222,11 @@ pub enum Op {
     BulkPutString(Vec<(B, B)>),
     PutFromIter(Vec<(B, B)>),
     GetString(B),
+    /// the `_string` variants of the API (values pass through `String::from_utf8_lossy` on the way out)
+    PutString(B, B),
+    DelString(B),
+    BulkGetString(Vec<B>),
+    BulkDelString(Vec<B>),
     /// drop every handle, reopen with these parameters
     Reopen(Params),
     /// compare the files with render(model): 0 = after flush(), 1 = after drop + reopen
@@ -286,6 +291,10 @@ impl Op {
             Op::BulkPutString(kvs) => format!("bulk_put_string {}", dash(kvs_tok(kvs))),
             Op::PutFromIter(kvs) => format!("put_from_iter {}", dash(kvs_tok(kvs))),
             Op::GetString(k) => format!("get_string {}", k.tok()),
+            Op::PutString(k, v) => format!("put_string {} {}", k.tok(), v.tok()),
+            Op::DelString(k) => format!("del_string {}", k.tok()),
+            Op::BulkGetString(ks) => format!("bulk_get_string {}", dash(ks_tok(ks))),
+            Op::BulkDelString(ks) => format!("bulk_del_string {}", dash(ks_tok(ks))),
             Op::Reopen(p) => format!("reopen {}", p.tok()),
             Op::Cmp(m) => format!("cmp {}", m),
             Op::Map(i, kt, p) => format!("map {} {} {}", i, kt.name(), p.tok()),
@@ -315,6 +324,10 @@ impl Op {
             ("bulk_put_string", 2) => Op::BulkPutString(parse_kvs(t[1])?),
             ("put_from_iter", 2) => Op::PutFromIter(parse_kvs(t[1])?),
             ("get_string", 2) => Op::GetString(B::parse(t[1])?),
+            ("put_string", 3) => Op::PutString(B::parse(t[1])?, B::parse(t[2])?),
+            ("del_string", 2) => Op::DelString(B::parse(t[1])?),
+            ("bulk_get_string", 2) => Op::BulkGetString(parse_ks(t[1])?),
+            ("bulk_del_string", 2) => Op::BulkDelString(parse_ks(t[1])?),
             ("reopen", 2) => Op::Reopen(Params::parse(t[1])?),
             ("cmp", 2) => Op::Cmp(t[1].parse().ok()?),
             ("map", 4) => Op::Map(t[1].parse().ok()?, Kt::parse(t[2])?, Params::parse(t[3])?),
@@ -326,7 +339,19 @@ impl Op {
         matches!(
             self,
             Op::Put(..) | Op::Del(..) | Op::BulkDel(..) | Op::BulkPut(..) | Op::BulkPutString(..) | Op::PutFromIter(..)
+                | Op::PutString(..) | Op::DelString(..) | Op::BulkDelString(..)
         )
+    }
+    /// the byte-level call a `_string` variant stands for (itself otherwise), and whether it is one
+    pub fn base(&self) -> (Op, bool) {
+        match self {
+            Op::GetString(k) => (Op::Get(k.clone()), true),
+            Op::PutString(k, v) => (Op::Put(k.clone(), v.clone()), true),
+            Op::DelString(k) => (Op::Del(k.clone()), true),
+            Op::BulkGetString(ks) => (Op::BulkGet(ks.clone()), true),
+            Op::BulkDelString(ks) => (Op::BulkDel(ks.clone()), true),
+            o => (o.clone(), false),
+        }
     }
     pub fn kind(&self) -> &'static str {
         match self {
@@ -350,6 +375,10 @@ impl Op {
             Op::BulkPutString(..) => "bulk_put_string",
             Op::PutFromIter(..) => "put_from_iter",
             Op::GetString(..) => "get_string",
+            Op::PutString(..) => "put_string",
+            Op::DelString(..) => "del_string",
+            Op::BulkGetString(..) => "bulk_get_string",
+            Op::BulkDelString(..) => "bulk_del_string",
             Op::Reopen(..) => "reopen",
             Op::Cmp(..) => "cmp",
             Op::Map(..) => "map",
